@@ -27,6 +27,10 @@ CATALOGUE = [
      "    cs = (ns+1)/np.squeeze(jacobi_seq(ns, .5, .5, np.ones(1, dtype=x.dtype)))\n    seq = jacobi_seq(ns, .5, .5, x)\n    cs = cs.reshape((-1, *[1]*x.ndim))\n    return cs*seq", '', 'cheby2_seq reshaped in two steps'),
     ('variant', ZK, '            zern = jac * azpiece * radialpiece  # jac already contains the norm\n', '            zern = jac * azpiece  # jac already contains the norm\n            zern *= radialpiece\n', '', 'zernike: in-place multiply on a fresh product'),
     ('mutant', ZK, '            radialpiece = powers_of_m[absm]\n            zern = jac * azpiece * radialpiece  # jac already contains the norm\n', '            radialpiece = powers_of_m[absm]\n            radialpiece *= azpiece\n            zern = jac * radialpiece  # jac already contains the norm\n', 'C08.shared', 'zernike: shared r**|m| table overwritten'),
+    ('mutant', XY, "        xterm = x_seq[m]\n        yterm = y_seq[n]", "        xterm = x_seq[n]\n        yterm = y_seq[m]", 'C08.table', 'xy_seq: orders looked up in the wrong tables'),
+    ('mutant', XY, "    ms = truenp.arange(0, maxm+1)", "    ms = truenp.arange(1, maxm+1)", 'C08.table', 'xy_seq: x table starts at order 1 (index != order)', 'exit2-ok'),
+    ('mutant', XY, "    for m, n in mns:\n        xterm", "    for n, m in mns:\n        xterm", 'C08.table', 'xy_seq: request unpacked (n, m)'),
+    ('variant', XY, "        xterm = x_seq[m]\n        yterm = y_seq[n]\n        out.append(xterm*yterm)", "        out.append(y_seq[n] * x_seq[m])", '', 'xy_seq: lookup inlined'),
     ('mutant', XY, '    if cartesian_grid and x.ndim > 1:\n        x, y = optimize_xy_separable(x, y)\n\n    ms = ', '    if cartesian_grid and x.ndim > 1:\n        x, _ = optimize_xy_separable(x, y)\n\n    ms = ', 'C08.shape2', 'xy_seq: y left as a full grid'),
     # table laws / Q sequences
     ('mutant', ZK, '        jacobi_seqs_mjn[k] = truenp.arange(nj+1)\n', '        jacobi_seqs_mjn[k] = truenp.arange(1, nj+2)\n', 'C08.table2', 'zernike: Jacobi order list starts at 1'),
